@@ -89,7 +89,7 @@ SPEC = {
         "C15_trigger_exactly_once", "C15_pre_trigger", "C15_weak_iteration", "C15_max_trigger_count", "C15_max_trigger_count_never_more",
         "C15_max_trigger_count_seq", "C15_max_trigger_count_hooks",
         "C15_link", "C15_link_concurrent", "C15_registry_projection", "C15_pooled_exactly_once", "C15_pooled_drained", "C15_promise_once", "C15_notifier", "C15_notifier_wait_race",
-        "C15_notifier_count_exact", "C15_notifier_concurrent", "C15_notifier_concurrent_hit", "C15_notifier_double_deregister_witness", "C15_notifier_split_deregister_wait_witness",
+        "C15_notifier_count_exact", "C15_notifier_concurrent", "C15_notifier_concurrent_hit", "C15_notifier_stale_listener_witness", "C15_notifier_double_deregister_witness", "C15_notifier_split_deregister_wait_witness",
         "C15_notifier_old_witness", "C15_notifier_wait_race_old_witness",
         "C15_skeleton_Listener_Wait", "C15_skeleton_Listener_Deregister", "C15_skeleton_Notifier_removeListener",
         "C15_skeleton_Notifier_Notify", "C15_skeleton_Notifier_Listener", "C15_skeleton_Event1_OnTrigger",
